@@ -42,8 +42,8 @@ def print_sinosoidal(value: complex, unit: str = '', precision: int = 3, w: floa
     phase_value+= pi/2 if sin else 0
     abs_phase_value = ScientificFloat(value=abs(degrees(phase_value)), unit='°', precision=precision) if deg else ScientificFloat(value=abs(phase_value), precision=precision)
     label = str(abs_value)
-    if w == 0:
-        return label
+    if w == 0: # a constant: |X|*cos(phase), with its sign
+        return print_real(value, unit=unit, precision=precision)
     label+= '·'
     label+= 'sin' if sin else 'cos'
     label+= '('
